@@ -125,6 +125,14 @@ func Families() []Named {
 		// %prec naming a token that is declared but has no precedence level (legal yacc: the rule then has none)
 		{"prec-of-plain-token", Parse("E", []string{"TA", "TU"}, "E: E '+' E | '-' E %prec TU | TA").WithPrec("left '+'")},
 		{"prec-of-plain-literal", Parse("E", []string{"TA"}, "E: E '+' E | '-' E %prec '!' | '!' TA | TA").WithPrec("left '+'")},
+		// symbol names that are prefixes of one another: the alternatives K KK and KK K spell the same text
+		{"name-prefixes", Parse("S", []string{"K", "KK"}, "S: K KK | KK K | KK KK K | s ss ; s: K K ; ss: KK KK")},
+		// a desk calculator: more than ten symbols and more than twenty states (two-digit ids on both sides)
+		{"calc-15", Parse("prog", []string{"TNUM", "TID", "TSEMI"}, "prog: prog cmd | cmd ; cmd: expr TSEMI | TID '=' expr TSEMI ; expr: expr '+' term | expr '-' term | term ; term: term '*' fact | fact ; fact: TNUM | TID | '(' expr ')'")},
+		// the default start symbol (`start`, also the name of yaccgo's augmented symbol) used deep inside right-hand sides
+		{"default-start-nested", Parse("", abc[:3], "start: TA start TB | TC | A ; A: TB start")},
+		// a nonterminal defined in two places, a reduce/reduce conflict between the rule in between and a later alternative
+		{"rr-split-groups", Parse("S", abc[:2], "S: A | B ; A: TB ; B: TA ; A: TA")},
 		// a reduce/reduce conflict between two rules that carry the same precedence level
 		{"rr-same-level-left", Parse("S", []string{"TA", "TC"}, "S: V | C ; V: TA %prec TC ; C: TA %prec TC").WithPrec("left TC")},
 		{"rr-same-level-right", Parse("S", []string{"TA", "TC"}, "S: V TA | C TA | V ; V: TA %prec TC ; C: TA %prec TC").WithPrec("right TC")},
